@@ -25,6 +25,7 @@ func main() {
 	fresh := flag.Bool("fresh", false, "non-incremental solver queries")
 	logic := flag.String("logic", "", "set-logic in fresh mode")
 	slow := flag.Int("slow", 0, "log queries slower than this many ms")
+	maxsteps := flag.Int("maxsteps", 20000000, "per-path step budget")
 	params := flag.String("p", "", "instance parameters k=v,k=v")
 	flag.Parse()
 
@@ -47,6 +48,10 @@ func main() {
 		fmt.Println("load:", err)
 		os.Exit(2)
 	}
+	for k, v := range sym.VfsRedirects() {
+		eng.Redirects[k] = v
+	}
+	eng.MaxSteps = *maxsteps
 	eng.Verbose = *verbose
 	eng.LogSMT = *logsmt
 	eng.SolverBin = *solver
